@@ -20,6 +20,21 @@ REG.globals["_IN_PROGRESS"] = V("ref", INPROG, "contextvar")
 REG.external("contextvars.ContextVar.get/set", "get() returns the current context's binding (default None); set(x) rebinds it")
 
 
+def inprogress_is_a_contextvar():
+    """The trusted get/set semantics is that of contextvars.ContextVar: the module must bind _IN_PROGRESS to one,
+    created with default=None (syntactic obligation on icontract/_checkers.py, C10 C11 C12)."""
+    import ast
+    tree, _ = extract.module_ast("_checkers.py")
+    ok = False
+    for n in tree.body:
+        if isinstance(n, ast.Assign) and len(n.targets) == 1 and ast.unparse(n.targets[0]) == "_IN_PROGRESS":
+            v = n.value
+            ok = (isinstance(v, ast.Call) and ast.unparse(v.func) == "contextvars.ContextVar"
+                  and any(k.arg == "default" and isinstance(k.value, ast.Constant) and k.value.value is None for k in v.keywords))
+    imports_ok = any(isinstance(n, ast.Import) and any(a.name == "contextvars" and a.asname is None for a in n.names) for n in tree.body)
+    return [("_IN_PROGRESS_is_a_contextvars.ContextVar_with_default_None", ok and imports_ok)]
+
+
 def _cv_get(ex, st, node, recv, args, kwargs):
     if recv.py != "contextvar":
         return None
@@ -129,6 +144,9 @@ class CheckerWrapper(FnSpec):
         return dict(P=attr(st, w, "__preconditions__"), S=attr(st, w, "__postcondition_snapshots__"), Q=attr(st, w, "__postconditions__"),
                     args=a["args"].t, kwargs=a["kwargs"].t, b0=st.get("attr:ctx_binding", INPROG), idf=a["id_func"].t)
 
+    def static_checks(self, fnode):
+        return inprogress_is_a_contextvar()
+
     def requires(self, c):
         st, a = c.pre, c.a
         p = self.parts(st, a)
@@ -161,6 +179,14 @@ class CheckerWrapper(FnSpec):
 
     # -- call sites with extra duties --------------------------------------------------------------------------
     def kfc(self, ex, st, node, args, kwargs):
+        # C05: the resolved map is computed from the closure's own variables and this call's args/kwargs
+        n = ex.ordinal("kfc")
+        want = {"param_names": self.a["param_names"], "kwdefaults": self.a["kwdefaults"], "args": self.a["args"], "kwargs": self.a["kwargs"]}
+        if "positional_only" in self.a:
+            want["positional_only"] = self.a["positional_only"]
+        same = z3.And([z3.BoolVal(False) if k not in kwargs else kwargs[k].t == v.t for k, v in want.items()] + [z3.BoolVal(not args)])
+        ex.oblige(st, "call[kwargs_from_call]#%d.resolves_from_the_closure_variables_and_this_calls_arguments" % n, same, kind="C05",
+                  meta={"props": ["C05", "C01", "C02"]})
         out = []
         for s, r in REG.calls["icontract._checkers.kwargs_from_call"](ex, st, node, args, kwargs):
             if isinstance(r, V):
